@@ -524,6 +524,12 @@ func (x *Exec) havocLoop(fr *Frame, st *State, li *loopInfo) {
 	allocs := false
 	cells := map[*ssa.Alloc]bool{}
 	var rows []rowTarget
+	atomics := false
+	defer func() {
+		if atomics {
+			x.havocClass(st, "g:adrop", tb.Array(tb.BV(64), tb.BV(64)))
+		}
+	}()
 	var bl []*ssa.BasicBlock
 	for b := range li.blocks {
 		bl = append(bl, b)
@@ -564,9 +570,14 @@ func (x *Exec) havocLoop(fr *Frame, st *State, li *loopInfo) {
 					}
 				}
 			}
-			switch ins.(type) {
+			switch t := ins.(type) {
 			case *ssa.Alloc, *ssa.MakeSlice, *ssa.MakeMap, *ssa.MakeChan, *ssa.MakeClosure, *ssa.MakeInterface, *ssa.Call, *ssa.Convert:
 				allocs = true
+				if c, ok := t.(*ssa.Call); ok {
+					if f := c.Call.StaticCallee(); f != nil && strings.HasPrefix(f.String(), "sync/atomic.") && !strings.HasPrefix(f.String(), "sync/atomic.Load") {
+						atomics = true
+					}
+				}
 			}
 			x.instrEffects(ins, eff, map[*ssa.Function]bool{fr.fn: true})
 		}
